@@ -5,7 +5,6 @@ use crate::gen::*;
 use crate::rng::Rng;
 use crate::sddhist::{gen_sdd_history, random_sdd_cfg, SddCfg};
 use crate::semi::*;
-use crate::tt::Tt;
 use crate::walk::{bdd_canon_string, bdd_nodes, sdd_canon_string, sdd_nodes, BddWalker};
 use crate::with_robdd;
 use rsdd::builder::decision_nnf::{DecisionNNFBuilder, StandardDecisionNNFBuilder};
